@@ -227,6 +227,13 @@ fn run_one(rep: &mut Report, args: &Args, contig: &[u8], k: usize, set: &AHashSe
 pub fn run(args: &Args, rep: &mut Report) {
     let miri = cfg!(miri);
     let t = args.tier_thorough;
+    if args.case.as_deref() == Some("direct") {
+        let contig = vcommon::string_to_codes(args.get("contig").unwrap_or(""));
+        let k = args.get_u64("k", 3) as usize;
+        let set: AHashSet<u64> = args.get("splitters").unwrap_or("").split(',').filter_map(|x| x.parse().ok()).collect();
+        run_one(rep, args, &contig, k, &set, "direct", "direct");
+        return;
+    }
     if let Some(c) = &args.case {
         if let Some(i) = c.strip_prefix("rand:").and_then(|s| s.parse::<u64>().ok()) {
             let mut rng = Rng::derive(args.seed, 0xC10, i);
